@@ -139,7 +139,7 @@ def parse_mir(text):
 
 TYPE_MODULE = {"MultiplicativeHash": "multiplicative_hash", "PeriodicTrigger": "trigger",
                "sharded::Cache": "sharded", "plain::Cache": "plain", "Update": "second_chance",
-               "stack::Cache": "stack"}
+               "stack::Cache": "stack", "ReadOnlyCacheBuilder": "readonly", "ReadOnlyCache": "readonly", "CacheBuilder": "stack"}
 
 
 def find_function(funcs, callee):
